@@ -10,6 +10,7 @@ TraceInit == tid \in 1..Len(Traces) /\ l = 1 /\ Init
 AnsOf(e) == [p \in DOMAIN e.ans |-> e.ans[p]]
 Step(a) ==
     \/ a.op = "Create" /\ Create(a.p, a.c)
+    \/ a.op = "StoreCreate" /\ StoreCreate(a.p, a.c, a.salg)
     \/ a.op = "Delete" /\ Delete(a.p)
     \/ a.op = "Mutate" /\ Mutate(a.p, a.c, a.ino, a.mt)
     \/ a.op = "Query" /\ Query(ToSet(a.P), a.alg, a.api)
